@@ -2131,6 +2131,36 @@ def check_C18(run):
     sb = l4.Sandbox()
     fails = []
     try:
+        # ---- spec-file texts, in-process (the real parse_spec_file + resolve_spec under catch_unwind): thousands of mutated texts,
+        # multi-byte characters everywhere (error reporting that slices the text by a character index bites only there)
+        ydir = os.path.join(sb.dir, 'yaml'); os.makedirs(ydir)
+        ylines, ytexts = [], []
+        uni = ['é', '日本語', 'ß', '🙂', 'а', '\u2028', 'ｱ', '\ufeff']
+        for i in range(2500 if not thorough else 40000):
+            pth = rng.choice(['/tmp/src', '/tmp/日本語/é', 'ｱｲｳ/🙂', 'a b', "it's"])
+            good = (rng.choice(['', '# коммент 日本語\n', '\ufeff']) + f'syncs:\n  - src: "{pth}/"\n    dest: {rng.choice(uni)}dst/\n    filters: [ "+.*", "-{rng.choice(uni)}" ]\n'
+                    f'    dest_file_newer_behaviour: {rng.choice(["overwrite", "skip", "prompt", "error", "ünknown"])}\n  - src: {pth}\n    dest: {pth}2\n'
+                    + rng.choice(['', 'deploy_behaviour: ok\n', 'src_hostname: "hôst"\n', 'dest_username: ユーザー\n']))
+            t = good
+            toks = ['"', "'", ':', ' :', '- ', '[', ']', '{', '}', '\n', '  ', '\t', '~', '&a ', '*a', '---\n', '...\n', '!!binary ', '? ', '|\n', '>\n', '%YAML 9.9\n', ',', '#', '\\', '\r\n', '\x00', '@', '`'] + uni
+            for _ in range(rng.choice([0, 1, 1, 2, 3, 6])):
+                j = rng.randrange(len(t) + 1)
+                k_ = rng.random()
+                if k_ < 0.6: t = t[:j] + rng.choice(toks) + t[j + rng.choice([0, 0, 1, 3]):]
+                elif k_ < 0.75: t = t[:j]                                    # truncation (unterminated quote / flow)
+                elif k_ < 0.85: t = t[:j] + t[rng.randrange(len(t) + 1):]
+                else: t = t[:j] + ('[' * rng.choice([3, 40, 400])) + t[j:]
+            fp = os.path.join(ydir, f's{i}.yaml')
+            with open(fp, 'wb') as f: f.write(t.encode('utf-8', errors='surrogatepass') if rng.random() < 0.97 else t.encode('utf-16'))
+            ytexts.append(t); ylines.append(f'resolve 2 {C.X("--spec")} {C.X(fp)}')
+        for t, (ans, _) in zip(ytexts, C.run_harness(ylines, timeout=900)):
+            core = ans.split(':')[0] + (':' + ans.split(':')[1] if ans.startswith('err:') else '')
+            run.case(('yaml', t), core in ('ok', 'err:specFile'), sample=dict(layer='L1', spec_text=t[:200], outcome=ans[:60]) if len(t) % 97 == 3 else None)
+            run.count('spec-text:' + core[:20]); run.cov['traces_validated_against_impl'] += 1
+            if ans == 'panic' or ans.startswith('HARNESS-DIED'):
+                fails.append(dict(layer='L1', why='the spec-file parser / resolver panics on this text (the CLI would end with status 101)', spec_text=t, outcome=ans[:200]))
+                break
+        shutil.rmtree(ydir, ignore_errors=True)
         n = 300 if not thorough else 5000
         for i in range(n):
             base = os.path.join(sb.dir, f'z{i}'); os.makedirs(base)
@@ -2421,6 +2451,7 @@ def check_C19(run):
     l2_ = [f'exe ext{kind} {C.X(out)} {C.X(name)}' for kind, img, name, payload, out in second]
     back = [a for a, _ in C.run_harness(l2_, timeout=1800)]
     mback = C.run_model(l2_, timeout=1800)
+    f10 = []
     for (kind, img, name, payload, out), a, m, l in zip(second, back, mback, l2_):
         run.count(f'roundtrip:{kind}'); run.cov['traces_validated_against_impl'] += 1
         if a.split(' msg=')[0] != m and bad is None:
@@ -2432,9 +2463,40 @@ def check_C19(run):
             strndx = struct.unpack_from('<H', img, 0x3E)[0]; shoff = struct.unpack_from('<Q', img, 0x28)[0]
             no, ns = struct.unpack_from('<QQ', img, shoff + strndx * 64 + 0x18)
             ok = ok and out[0x40:no + ns] == img[0x40:no + ns] and out[:0x28] == img[:0x28]
+        why = None
+        if kind == 'pe' and ok:
+            # independent structural parse: every original section's raw data is found, unchanged, where the output's header for
+            # that section points; names, virtual layout and raw sizes of the original sections are unchanged; one section was added
+            try:
+                def secs(b):
+                    pe = struct.unpack_from('<I', b, 0x3C)[0]
+                    n = struct.unpack_from('<H', b, pe + 6)[0]; opt = struct.unpack_from('<H', b, pe + 20)[0]
+                    t = pe + 24 + opt
+                    return pe, n, [(b[t + 40 * i: t + 40 * i + 8],) + struct.unpack_from('<IIII', b, t + 40 * i + 8) for i in range(n)] + [t + 40 * n]
+                pe_i, n_i, s_i = secs(img); pe_o, n_o, s_o = secs(out)
+                end_i = s_i.pop(); s_o.pop()
+                if any(x[3] > 0 and x[4] < end_i for x in s_i):
+                    raise struct.error('raw data overlaps the headers: not a layout the preservation clause speaks about')
+                if n_o != n_i + 1: why = f'section count {n_i} -> {n_o}'
+                for k_, (a_, b_) in enumerate(zip(s_i, s_o)):
+                    if a_[:4] != b_[:4]: why = why or f'header of section {k_} changed: {a_} -> {b_}'
+                    di, do = img[a_[4]: a_[4] + a_[3]], out[b_[4]: b_[4] + b_[3]]
+                    if a_[4] + a_[3] <= len(img) and di != do: why = why or f'section {k_}: contents altered (raw data at {a_[4]}+{a_[3]} in the input, at {b_[4]} in the output)'
+                if out[:pe_i + 6] != img[:pe_i + 6]: why = why or 'bytes before the section count changed'
+                # known finding C19-F10: no room for the 40-byte header is made when gap + one FileAlignment < 40
+                falign = struct.unpack_from('<I', img, pe_i + 24 + 36)[0]
+                gap_i = min([x[4] for x in s_i if x[3] > 0] or [end_i + 40]) - end_i
+                if why and gap_i < 40 and gap_i + falign < 40 and any(f.get('id') == 'C19-F10' for f in C.load_known()['open']):
+                    f10.append((gap_i, falign, why)); why = None
+                ok = ok and why is None
+            except struct.error as e:
+                pass
         if not ok:
-            run.violation(dict(kind='oracle-failed-on-implementation', oracle='extract(add(image, payload)) returns the payload (PE: zero padded) and the original bytes survive', layer='L1',
+            run.violation(dict(kind='oracle-failed-on-implementation', oracle='extract(add(image, payload)) returns the payload (PE: zero padded) and the original bytes survive', layer='L1', why=why,
                                image_kind=kind, image=img.hex()[:2000], payload=payload.hex()[:400], extracted=a[:400])); break
+    if f10:
+        g_, fa_, w_ = f10[0]
+        run.known.append(f'C19-F10: add_section_to_pe overwrites the start of the first section when the header gap ({g_} bytes) plus one FileAlignment ({fa_}) is below the 40 bytes a section header needs ({len(f10)} layouts this run; e.g. {w_})')
     if bad:
         run.violation(dict(kind='correspondence-broken', correspondence='L1/exe_utils byte-exact', note='outputs, errors and panics must agree', **bad), no_input=True)
     # panics on malformed input: the recorded finding, by (function, class)
